@@ -40,6 +40,7 @@ AXES = [
     ('id_dtype', ['int32', 'uint32', 'int64', 'uint16']),
     ('time_dtype', ['uint64', 'int64']),
     ('alf_samples', [True, False]),
+    ('alf_clock', ['rate', 'sync']),
     ('attrs', ['none', '1d', '2d', 'wronglen', 'col', 'row']),
     ('content', ['finite', 'nan_amp', 'inf_wm', 'nan_similar', 'nan_template', 'nan_features',
                  'nan_template_channel']),
